@@ -61,8 +61,8 @@ def rule_checksum_gate(ctx: Ctx, rep: Report) -> None:
     rep.ob(rule, "slip39.share_from_mnemonic", ok, sh.where(), "a share is returned only past _rs1024_verify" if ok else "a share is built without the RS1024 check")
     rv = ctx.func(f"{S39}._rs1024_verify")
     r = [n for n in own_nodes(rv.node) if isinstance(n, ast.Return)]
-    rep.ob(rule, "slip39:rs1024", bool(r) and isinstance(r[0].value, ast.Compare) and isinstance(r[0].value.ops[0], ast.Eq) and ctx.fold(r[0].value.comparators[0], rv.module) == 1
-           and call_name(r[0].value.left) == "_rs1024_polymod" and "_customization_string(extendable)" in norm(r[0].value.left) and "indexes" in norm(r[0].value.left), rv.where(), f"{norm(r[0].value) if r else None}")
+    rep.ob(rule, "slip39:rs1024", bool(r) and PT.match(PT.compile_("_rs1024_polymod($$data) == 1"), r[0].value, {})
+           and "_customization_string(extendable)" in norm(r[0].value) and "indexes" in norm(r[0].value), rv.where(), f"{norm(r[0].value) if r else None}")
     rs = ctx.func(f"{S39}._recover_secret")
     g = ctx.cfg(rs)
     dg = [n for t, pol, n in ctx.refusals(rs) if pol and "digest_share[:_DIGEST_BYTES] != _digest(random_part, secret)" == norm(t)]
